@@ -38,6 +38,9 @@ impl<'a> Emit<'a> {
             let _ = f.set_len(line.len() as u64);
         }
         let ans = crate::canon::catch(|| (self.answer)(&req)).unwrap_or_else(|| "panic".to_string());
+        if let Some(f) = self.current.as_mut() {
+            let _ = f.set_len(0); // answered: a death from here on is not about this request
+        }
         writeln!(self.out, "{}\t{}\t{}", class, req, ans).unwrap();
         *self.classes.entry(class.to_string()).or_insert(0) += 1;
         self.count += 1;
